@@ -153,6 +153,18 @@ def composite_codec_encode_into_pdu(codec: CompositeCodec, physical_value: Optio
     orig_is_end_of_pdu = encode_state.is_end_of_pdu
     encode_state.is_end_of_pdu = False
 
+    # the length- and table keys of the composite codec object shadow
+    # keys with identical names that are defined by enclosing
+    # objects. (These are restored below.)
+    shadowed_keys: List[typing.Tuple[typing.Dict[str, typing.Any], str, typing.Any]] = []
+    for param in codec.parameters:
+        if isinstance(param, (LengthKeyParameter, TableKeyParameter)):
+            for keys_dict in (encode_state.length_keys, encode_state.table_keys,
+                              encode_state.key_pos):
+                if param.short_name in keys_dict:
+                    shadowed_keys.append(
+                        (keys_dict, param.short_name, keys_dict.pop(param.short_name)))
+
     # ensure that no values for unknown parameters are specified.
     if not encode_state.allow_unknown_parameters:
         param_names = {param.short_name for param in codec.parameters}
@@ -232,6 +244,9 @@ def composite_codec_encode_into_pdu(codec: CompositeCodec, physical_value: Optio
             encode_state.table_keys.pop(param.short_name, None)
         encode_state.key_pos.pop(param.short_name, None)
 
+    for keys_dict, key_name, key_value in shadowed_keys:
+        keys_dict[key_name] = key_value
+
     # make sure that the data which overlaps with NRC-CONST parameters
     # exhibits one of the values allowed by them. (Otherwise, the
     # resulting PDU could not be decoded using the object.)
@@ -265,12 +280,31 @@ def composite_codec_decode_from_pdu(codec: CompositeCodec,
     orig_origin = decode_state.origin_byte_position
     decode_state.origin_byte_position = decode_state.cursor_byte_position
 
+    from .parameters.lengthkeyparameter import LengthKeyParameter
+    from .parameters.tablekeyparameter import TableKeyParameter
+
+    # the length- and table keys of the composite codec object shadow
+    # keys with identical names that are defined by enclosing objects
+    shadowed_keys: List[typing.Tuple[typing.Dict[str, typing.Any], str, typing.Any]] = []
+    for param in codec.parameters:
+        if isinstance(param, LengthKeyParameter):
+            if param.short_name in decode_state.length_keys:
+                shadowed_keys.append((decode_state.length_keys, param.short_name,
+                                      decode_state.length_keys[param.short_name]))
+        elif isinstance(param, TableKeyParameter):
+            if param.short_name in decode_state.table_keys:
+                shadowed_keys.append((decode_state.table_keys, param.short_name,
+                                      decode_state.table_keys[param.short_name]))
+
     result = {}
     for param in codec.parameters:
         value = param.decode_from_pdu(decode_state)
 
         decode_state.journal.append((param, value))
         result[param.short_name] = value
+
+    for keys_dict, key_name, key_value in shadowed_keys:
+        keys_dict[key_name] = key_value
 
     # decoding of the composite codec object finished. go back the
     # original origin.
